@@ -236,4 +236,15 @@ theorem fires_perm (hs : C01.SchemaOk s) (hd : C01.DocOk d) (h : d.Perm d')
   exact violates_perm h hs.queryRoot hn r hr
 
 end
+
+/-- **F18 (known finding).**  `query ($x: Int, $x: Int!) { f(r: $x) }` against `f(r: Int!)`: the two
+    orders of the variable definitions are permutations of each other, the uniqueness rule reports
+    for both, variables-in-allowed-position (first match) only for the first. -/
+theorem f18_witness :
+    let a := [C07.qry none [C07.var 120 (.named 6) none, C07.var 120 (.nonNull (.named 6)) none] [C07.fld [(104, .var 120)]]]
+    let b := [C07.qry none [C07.var 120 (.nonNull (.named 6)) none, C07.var 120 (.named 6) none] [C07.fld [(104, .var 120)]]]
+    fires .uniqueVariableNames C07.exSchema a ∧ fires .uniqueVariableNames C07.exSchema b ∧
+    fires .variablesInAllowedPosition C07.exSchema a ∧ ¬ fires .variablesInAllowedPosition C07.exSchema b := by
+  decide
+
 end Gql.C14
